@@ -11,10 +11,14 @@ AnsBad(o, a) ==
   \/ a.err = 1
   \/ (a.op = "interval" /\ ~IntervalOK(Triples(o.items, a.c), a.s, a.e, a.iv))
   \/ (a.op = "values" /\ ~ValuesOK(Triples(o.items, a.c), a.s, a.e, a.vals))
+  \* a zoom query through the same reader: every record of the file's level that intersects the range, in order, nothing beyond it
+  \/ (a.op = "zoom" /\ ~ZoomQueryOK(Map(LAMBDA z : <<z[2], z[3]>>, SelectSeq(o.obs.zlevel, LAMBDA z : z[1] = a.c)), a.s, a.e, a.zr))
 Verdict(o) == IF o.obs.result # "ok" THEN "not-ok"
               ELSE IF o.obs.unmapped = 1 THEN "coordinate-not-from-input"
               ELSE IF \E k \in 1..Len(o.obs.answers) : AnsBad(o, o.obs.answers[k]) THEN "answer-depends-on-history-or-wrong"
               ELSE "ok"
-Post == /\ \A i \in 1..Len(Obs) : LET v == Verdict(Obs[i]) IN (v = "ok" \/ PrintT(<<"BAD", i, v>>))
+\* the model's zoom level (Reader!ZRecs = the tiling mechanism of C07) against the level the real writer stored
+Drift(o) == "zrecs" \in DOMAIN o /\ o.obs.result = "ok" /\ o.zrecs # <<>> /\ o.obs.zlevel # o.zrecs
+Post == /\ \A i \in 1..Len(Obs) : LET v == Verdict(Obs[i]) IN (v = "ok" \/ PrintT(<<"BAD", i, v>>)) /\ (~Drift(Obs[i]) \/ PrintT(<<"DRIFT", i>>))
         /\ PrintT(<<"CHECKED", Len(Obs)>>)
 =============================================================================
